@@ -205,7 +205,7 @@ func (vc *VC) storeDeref(st *State, elemT types.Type, ref string, v Term) {
 		s := vc.u.SortOf(elemT)
 		for i := 0; i < stt.NumFields(); i++ {
 			f := stt.Field(i)
-			fv := Term{S: "(" + vc.u.fieldSel(s, f.Name(), i) + " " + v.S + ")", T: vc.ts.apply(f.Type()), Sort: vc.u.SortOf(vc.ts.apply(f.Type()))}
+			fv := Term{S: vc.selFieldS(s, f.Name(), i, v.S), T: vc.ts.apply(f.Type()), Sort: vc.u.SortOf(vc.ts.apply(f.Type()))}
 			vc.storeField(st, elemT, f, ref, fv)
 		}
 		return
